@@ -116,15 +116,16 @@ struct Odo
 
 // ---------------------------------------------------------------- exact blocks without a malloc per call
 // malloc(L) under ASan has a red zone directly in front of byte 0 and directly behind byte L-1.
-static char *block(size_t L)
+static char *block(size_t L, int which = 0)
 {
-    static char *pool[160];
-    if (L >= 160)
+    static char *pool[3][160];
+    if (L >= 160 || L == 0)
         abort();
-    if (!pool[L])
-        pool[L] = (char *)malloc(L ? L : 1);
-    memset(pool[L], 0x5A, L);
-    return pool[L];
+    char *&b = pool[which][L];
+    if (!b)
+        b = (char *)malloc(L);
+    memset(b, 0x5A, L);
+    return b;
 }
 
 // ---------------------------------------------------------------- render clauses
@@ -172,21 +173,21 @@ static void judge_render(const char *routine, const char *cls, const char *got, 
     }
 }
 
-#define RENDER_IGRIS(fn, T, v, base, ref, reflen, cls)                                                            \
+#define RENDER_IGRIS(fn, T, v, base, ref, reflen, kcls)                                                            \
     do                                                                                                            \
     {                                                                                                             \
         vf::cls(#fn);                                                                                             \
         char *b_ = block((reflen) + 1);                                                                           \
         char *r_ = fn((T)(v), b_, (uint8_t)(base));                                                               \
-        judge_render(#fn, cls, b_, r_, true, ref, reflen, (long long)(v), (unsigned long long)(v), base);         \
+        judge_render(#fn, kcls, b_, r_, true, ref, reflen, (long long)(v), (unsigned long long)(v), base);         \
     } while (0)
-#define RENDER_SHIM(fn, T, v, base, ref, reflen, cls)                                                             \
+#define RENDER_SHIM(fn, T, v, base, ref, reflen, kcls)                                                            \
     do                                                                                                            \
     {                                                                                                             \
         vf::cls(#fn);                                                                                             \
         char *b_ = block((reflen) + 1);                                                                           \
         char *r_ = igc_##fn((T)(v), b_, (unsigned short)(base));                                                  \
-        judge_render(#fn, cls, b_, r_, false, ref, reflen, (long long)(v), (unsigned long long)(v), base);        \
+        judge_render(#fn, kcls, b_, r_, false, ref, reflen, (long long)(v), (unsigned long long)(v), base);        \
     } while (0)
 
 // ---------------------------------------------------------------- parse clauses
@@ -222,7 +223,7 @@ enum Spell { LOWER, UPPER };
 static char *make_input(const char *text, int len, Spell sp, Term t, bool tail)
 {
     size_t L = (size_t)len + 1 + (t.c ? 1 + (tail ? 1 : 0) : 0);
-    char *b = block(L);
+    char *b = block(L, 2);
     for (int i = 0; i < len; i++)
         b[i] = (sp == UPPER && text[i] >= 'a' && text[i] <= 'z') ? (char)(text[i] - 'a' + 'A') : text[i];
     int n = len;
@@ -565,6 +566,7 @@ static uint64_t biased(vf::Rng &r, int bits, unsigned base)
 }
 
 // ---------------------------------------------------------------- suites
+static const unsigned FAV_BASES[7] = {2, 8, 10, 16, 36, 11, 35};
 // (a) all 8-bit values x all bases, all wrappers
 static uint64_t w8_count() { return 35; }
 static void w8_run(uint64_t c)
@@ -595,7 +597,7 @@ static void w16_run(uint64_t c)
             vt100_case((int)(int16_t)p);
         }
         if (base == 16)
-            dprint_pattern((uint64_t)(int64_t)(int16_t)p ^ (p << 48 >> (p % 49)));
+            dprint_pattern((p & 1) ? vf::mix(p, 7) >> (p % 61) : (uint64_t)(int64_t)(int16_t)p);
     }
     vf::count_bulk(4096, 4096 - (lo == 0));
     if (c == 0)
@@ -611,7 +613,7 @@ static void w32_run(uint64_t c)
     vf::Rng r(vf::seed(), 0xC0732, c);
     for (uint64_t k = 0; k < RB; k++)
     {
-        unsigned base = r.chance(1, 2) ? 2 + (unsigned)r.below(35) : r.pick((const unsigned[]){2, 8, 10, 16, 36, 11, 35});
+        unsigned base = r.chance(1, 2) ? 2 + (unsigned)r.below(35) : r.pick(FAV_BASES);
         uint64_t p = biased(r, 32, base);
         width_case<32>(p, base, c * RB + k, 1);
         shim_int((int)(uint32_t)p, base);
@@ -633,7 +635,7 @@ static void w64_run(uint64_t c)
     vf::Rng r(vf::seed(), 0xC0764, c);
     for (uint64_t k = 0; k < RB; k++)
     {
-        unsigned base = r.chance(1, 2) ? 2 + (unsigned)r.below(35) : r.pick((const unsigned[]){2, 8, 10, 16, 36, 11, 35});
+        unsigned base = r.chance(1, 2) ? 2 + (unsigned)r.below(35) : r.pick(FAV_BASES);
         uint64_t p = biased(r, 64, base);
         width_case<64>(p, base, c * RB + k, 1);
         shim_long((long)p, base);
@@ -673,7 +675,7 @@ static void sweep_chunk(unsigned base, uint32_t lo)
         if (ru != bu + nu || (memcmp(bu, ou.upper(), nu + 1) != 0 && memcmp(bu, ou.lower(), nu + 1) != 0))
             judge_render("igris_u32toa", "nonneg", bu, ru, true, ou.lower(), nu, u, u, base), vf::fail("render:igris_u32toa:text:nonneg", "fast path and slow path disagree for %u base %u", u, base);
         rs[0] = '-';
-        char *bs = block(ns + 1);
+        char *bs = block(ns + 1, 1);
         vf::cls("igris_i32toa");
         char *rsp = igris_i32toa(s, bs, (uint8_t)base);
         const char *cls = width_class(mag_of(s), negchunk, 32);
